@@ -549,3 +549,32 @@ Fixpoint c02e_steps (prev : option osnap) (steps : list (bytes * eobs)) (evs : l
 Definition c02e_class (ec : ecase) : option N :=
   if c02e_steps None (ec_long ec) (events_long ec) && c02e_steps None (ec_pers ec) (events_pers ec) then None else Some 0.
 Definition engine_violations_c02 (cs : list ecase) : list (N * N) := classify c02e_class 0 cs.
+
+(* ---- C17, second half: the remaining history is answered as if the refused inputs had never been
+        sent.  The driver serves every history twice: as generated, and with the refused inputs removed *)
+Record ecase17 := mkE17 { e17_full : ecase; e17_filtered : ecase }.
+Definition resp_same (a b : eobs) : bool :=
+  Bool.eqb (eo_cont a) (eo_cont b) && ostat_eqb (eo_exec a) (eo_exec b)
+  && bytes_eqb (eo_out a) (eo_out b) && ostat_eqb (eo_flush a) (eo_flush b)
+  && list_eqb ocall_eqb (func_calls a) (func_calls b).
+Fixpoint as_if_never_sent (full filt : list (bytes * eobs)) : bool :=
+  match full with
+  | [] => true
+  | (i, o) :: full' =>
+    if refused_b i then as_if_never_sent full' filt
+    else match filt with
+         | [] => true                       (* the filtered run ended earlier (long-lived engine stopped) *)
+         | (j, p) :: filt' => bytes_eqb i j && resp_same o p && as_if_never_sent full' filt'
+         end
+  end.
+Definition c17x_class (e : ecase17) : option N :=
+  match c17_class (e17_full e) with
+  | Some k => Some k
+  | None =>
+    if as_if_never_sent (ec_long (e17_full e)) (ec_long (e17_filtered e))
+       && as_if_never_sent (ec_pers (e17_full e)) (ec_pers (e17_filtered e)) then None
+    else match c_first (ec_cfg (e17_full e)) with Some _ => Some 1 | None => Some 0 end
+  end.
+Definition engine_mismatches17 (cs : list ecase17) : list N :=
+  bad_indices (fun e => engine_corr_ok (e17_full e) && engine_corr_ok (e17_filtered e)) cs.
+Definition engine_violations_c17x (cs : list ecase17) : list (N * N) := classify c17x_class 0 cs.
